@@ -100,12 +100,21 @@ func c04IsCheckpointKey(k string) bool { return strings.HasPrefix(k, utils.Check
 
 // c04Load runs the real LoadCheckpoint against srv.
 func c04Load(srv *mredis.Server) (runid string, offset int64, db int, err error, aborted bool) {
+	// LoadCheckpoint never closes the connection it opens (once per start in production): the
+	// harness cuts it afterwards so that the model server's goroutine ends
+	var opened []*memconn.Conn
 	hook.SetDialHook(func(network, addr string) (net.Conn, error, bool) {
 		cc, sc := memconn.Pair("target-ckpt")
+		opened = append(opened, sc)
 		go srv.Serve(sc)
 		return cc, nil, true
 	})
-	defer hook.SetDialHook(nil)
+	defer func() {
+		hook.SetDialHook(nil)
+		for _, sc := range opened {
+			sc.Cut()
+		}
+	}()
 	hook.SetExitHook(func(int) {})
 	defer hook.SetExitHook(nil)
 	aborted = true
